@@ -1,0 +1,149 @@
+// Verification hooks (compiled only with `--cfg slawlor_ractor_verif`).
+//
+// Thin wrappers that expose the crate-private authentication state machines,
+// the challenge digest and the wire message types to an external
+// differential-testing harness. They call the real functions; no logic lives here.
+
+//! Verification hooks for the authentication handshake (only with `--cfg slawlor_ractor_verif`).
+
+use super::auth::{ClientAuthenticationProcess, ServerAuthenticationProcess};
+
+/// Wire types of the authentication protocol (`protocol::auth`).
+pub mod proto_auth {
+    pub use crate::protocol::auth::*;
+}
+/// Wire types of the control protocol (`protocol::control`).
+pub mod proto_control {
+    pub use crate::protocol::control::*;
+}
+/// Wire types of the node protocol (`protocol::node`).
+pub mod proto_node {
+    pub use crate::protocol::node::*;
+}
+/// The framing envelope (`protocol::meta`).
+pub mod proto_meta {
+    pub use crate::protocol::meta::*;
+}
+
+/// The real `hash::challenge_digest`.
+pub fn challenge_digest(cookie: &str, challenge: u32) -> Vec<u8> {
+    crate::hash::challenge_digest(cookie, challenge).to_vec()
+}
+
+/// Plain-data view of a [ServerAuthenticationProcess] state.
+#[derive(Debug, Clone, PartialEq, Eq)]
+pub enum ServerView {
+    /// `WaitingOnPeerName`
+    WaitingOnPeerName,
+    /// `HavePeerName(name)`: name, connection string, connection id
+    HavePeerName(String, String, u64),
+    /// `WaitingOnClientStatus`
+    WaitingOnClientStatus,
+    /// `WaitingOnClientChallengeReply(challenge, expected digest)`
+    WaitingOnClientChallengeReply(u32, Vec<u8>),
+    /// `Ok(reply digest)`
+    Ok(Vec<u8>),
+    /// `Close`
+    Close,
+}
+
+/// A real [ServerAuthenticationProcess] driven from outside the crate.
+#[derive(Debug)]
+pub struct ServerFsm(ServerAuthenticationProcess);
+
+impl ServerFsm {
+    /// `ServerAuthenticationProcess::init()`
+    pub fn init() -> Self {
+        Self(ServerAuthenticationProcess::init())
+    }
+
+    /// The assignment `next = WaitingOnClientStatus` the session performs after
+    /// it has sent `ServerStatus::Alive`.
+    pub fn set_waiting_on_client_status(&mut self) {
+        self.0 = ServerAuthenticationProcess::WaitingOnClientStatus;
+    }
+
+    /// `next(message, cookie)`
+    pub fn next(&mut self, message: proto_auth::AuthenticationMessage, cookie: &str) {
+        self.0 = self.0.next(message, cookie);
+    }
+
+    /// `start_challenge(cookie)`
+    pub fn start_challenge(&mut self, cookie: &str) {
+        self.0 = self.0.start_challenge(cookie);
+    }
+
+    /// The current state as plain data.
+    pub fn view(&self) -> ServerView {
+        match &self.0 {
+            ServerAuthenticationProcess::WaitingOnPeerName => ServerView::WaitingOnPeerName,
+            ServerAuthenticationProcess::HavePeerName(n) => ServerView::HavePeerName(
+                n.name.clone(),
+                n.connection_string.clone(),
+                n.connection_id,
+            ),
+            ServerAuthenticationProcess::WaitingOnClientStatus => ServerView::WaitingOnClientStatus,
+            ServerAuthenticationProcess::WaitingOnClientChallengeReply(c, d) => {
+                ServerView::WaitingOnClientChallengeReply(*c, d.to_vec())
+            }
+            ServerAuthenticationProcess::Ok(d) => ServerView::Ok(d.to_vec()),
+            ServerAuthenticationProcess::Close => ServerView::Close,
+        }
+    }
+}
+
+/// Plain-data view of a [ClientAuthenticationProcess] state.
+#[derive(Debug, Clone, PartialEq, Eq)]
+pub enum ClientView {
+    /// `WaitingForServerStatus`
+    WaitingForServerStatus,
+    /// `WaitingForServerChallenge(status)`: the raw status value
+    WaitingForServerChallenge(i32),
+    /// `WaitingForServerChallengeAck`: server name, server connection string, server challenge,
+    /// reply digest, own challenge, expected digest
+    WaitingForServerChallengeAck(String, String, u32, Vec<u8>, u32, Vec<u8>),
+    /// `Ok`
+    Ok,
+    /// `Close`
+    Close,
+}
+
+/// A real [ClientAuthenticationProcess] driven from outside the crate.
+#[derive(Debug)]
+pub struct ClientFsm(ClientAuthenticationProcess);
+
+impl ClientFsm {
+    /// `ClientAuthenticationProcess::init()`
+    pub fn init() -> Self {
+        Self(ClientAuthenticationProcess::init())
+    }
+
+    /// `next(message, cookie)`
+    pub fn next(&mut self, message: proto_auth::AuthenticationMessage, cookie: &str) {
+        self.0 = self.0.next(message, cookie);
+    }
+
+    /// The current state as plain data.
+    pub fn view(&self) -> ClientView {
+        match &self.0 {
+            ClientAuthenticationProcess::WaitingForServerStatus => {
+                ClientView::WaitingForServerStatus
+            }
+            ClientAuthenticationProcess::WaitingForServerChallenge(s) => {
+                ClientView::WaitingForServerChallenge(s.status)
+            }
+            ClientAuthenticationProcess::WaitingForServerChallengeAck(c, r, m, e) => {
+                ClientView::WaitingForServerChallengeAck(
+                    c.name.clone(),
+                    c.connection_string.clone(),
+                    c.challenge,
+                    r.to_vec(),
+                    *m,
+                    e.to_vec(),
+                )
+            }
+            ClientAuthenticationProcess::Ok => ClientView::Ok,
+            ClientAuthenticationProcess::Close => ClientView::Close,
+        }
+    }
+}
